@@ -27,7 +27,7 @@ use std::time::{Duration, Instant};
 pub static META: PropMeta = PropMeta {
     id: "C10",
     level: "exploration",
-    rule: "cases: (a) sched: 1..4 scripted futures scheduled on an Executor inserted in a loop thread that dispatches with zero timeout (optionally scheduling one more future from the callback, optionally removing and dropping the executor after dispatch k), or a scripted stream in a StreamSource; 1..3 actor threads with programs over wake(task) / clone+wake(task) / complete+wake(task) (stream: push+wake / end+wake); the schedule over all executor, ping and harness yield sites (incl. one in the middle of every poll) is generated. oracle on the controller's logical clock: every scheduled future is polled; a poll of the task starts after every wake that began while it was pending and the executor was alive; all polls and future drops happen on the loop thread; each Ready(v) gives exactly one callback with v and no callback exists without a completion; after the executor is dropped every future has been dropped exactly once (checked before the Scheduler goes) and schedule() returns ExecutorDestroyed; stream: items delivered == items pushed in order, one None after end, then the slot is free. (b) batch: n ready tasks, n in {0,1,1023,1024,1025,2100} and random, complete over consecutive dispatches without external wake-up; futures scheduled from the callback and from futures run. non-trivial (sched): an actor's wake sites interleave with the executor's flag-clear / dequeue sites of a dispatch (actor step between EX_CLEAR_PRE and the end of that dispatch), or a wake lands in the middle of a poll, or the executor is dropped while a wake is in flight; (batch): n >= 1024; distinct by case fingerprint",
+    rule: "cases: (a) sched: 1..4 scripted futures scheduled on an Executor inserted in a loop thread that dispatches with zero timeout (optionally scheduling one more future from the callback, optionally removing and dropping the executor after dispatch k), or a scripted stream in a StreamSource; 1..3 actor threads with programs over wake(task) / clone+wake(task) / complete+wake(task) (stream: push+wake / end+wake); the schedule over all executor, ping and harness yield sites (incl. one in the middle of every poll) is generated. oracle on the controller's logical clock: every scheduled future is polled; a poll of the task starts after every wake that began while it was pending and the executor was alive; all polls and future drops happen on the loop thread; each Ready(v) gives exactly one callback with v and no callback exists without a completion; after the executor is dropped every future has been dropped exactly once (checked before the Scheduler goes) and schedule() returns ExecutorDestroyed; stream: items delivered == items pushed in order, one None after end, then the slot is free. (c) free: 1..4 scripted futures, 2..3 free-running waker threads released together by a spin barrier (real concurrency, for races whose window holds no yield site) with programs over wake / clone+wake / complete+wake against the dispatching loop; oracle on CLOCK_MONOTONIC instants and end state: a completed+woken task delivers its value exactly once, every wake of a pending task is followed by a poll that started after it began, polls and drops only on the loop thread, every future dropped exactly once with the executor, ExecutorDestroyed afterwards. (b) batch: n ready tasks, n in {0,1,1023,1024,1025,2100} and random, complete over consecutive dispatches without external wake-up; futures scheduled from the callback and from futures run. non-trivial (sched): an actor's wake sites interleave with the executor's flag-clear / dequeue sites of a dispatch (actor step between EX_CLEAR_PRE and the end of that dispatch), or a wake lands in the middle of a poll, or the executor is dropped while a wake is in flight; (batch): n >= 1024; distinct by case fingerprint",
     assumptions: &[
         "interleavings at yield-site granularity on x86-TSO with the real atomics, real mpsc queue and real eventfd",
         "async-task's internal state machine is exercised through calloop only; its own atomics have no yield sites",
@@ -697,6 +697,214 @@ fn dfs(ctx: &CheckCtx, base: Case, max: u64) -> Option<Found> {
     found
 }
 
+// ------------------------------------------------------------------------------------------ free-running stress
+//
+// Waker threads run freely (released together by a spin barrier) against the dispatching loop: real concurrency,
+// for races whose window holds no yield site. Oracle on CLOCK_MONOTONIC instants and end state.
+
+#[derive(Serialize, Deserialize, Debug, Clone, Hash)]
+pub struct FreeCase {
+    pub tasks: u8,
+    pub actors: Vec<Vec<WOp>>,
+    pub schedule_from_cb: bool,
+}
+
+fn free_strategy() -> impl Strategy<Value = FreeCase> {
+    let exec_op = prop_oneof![4 => (0u8..4).prop_map(WOp::Wake), 2 => (0u8..4).prop_map(WOp::WakeClone), 3 => (0u8..4).prop_map(WOp::Complete)];
+    (1u8..=4, proptest::collection::vec(proptest::collection::vec(exec_op, 1..=6), 2..=3), any::<bool>())
+        .prop_map(|(tasks, actors, schedule_from_cb)| FreeCase { tasks, actors, schedule_from_cb })
+}
+
+struct FreeShared {
+    waker: Mutex<Option<Waker>>,
+    complete: AtomicBool,
+    finished: AtomicBool,
+    polls: Mutex<Vec<Instant>>,
+    drops: AtomicU32,
+    wrong_thread: AtomicBool,
+}
+
+struct FreeFut {
+    sh: Arc<FreeShared>,
+    val: u32,
+    home: std::thread::ThreadId,
+    immediate: bool,
+    _not_send: std::rc::Rc<()>,
+}
+
+impl Future for FreeFut {
+    type Output = u32;
+    fn poll(self: Pin<&mut Self>, cx: &mut Context<'_>) -> Poll<u32> {
+        if std::thread::current().id() != self.home {
+            self.sh.wrong_thread.store(true, Ordering::SeqCst);
+        }
+        self.sh.polls.lock().unwrap().push(Instant::now());
+        *self.sh.waker.lock().unwrap() = Some(cx.waker().clone());
+        if self.immediate || self.sh.complete.load(Ordering::SeqCst) {
+            self.sh.finished.store(true, Ordering::SeqCst);
+            Poll::Ready(self.val)
+        } else {
+            Poll::Pending
+        }
+    }
+}
+
+impl Drop for FreeFut {
+    fn drop(&mut self) {
+        if std::thread::current().id() != self.home {
+            self.sh.wrong_thread.store(true, Ordering::SeqCst);
+        }
+        self.sh.drops.fetch_add(1, Ordering::SeqCst);
+    }
+}
+
+pub fn run_free(case: &FreeCase) -> CaseOutcome {
+    use std::sync::atomic::AtomicUsize;
+    let mut info = CaseInfo { fingerprint: fingerprint(case), ..CaseInfo::default() };
+    let n_tasks = case.tasks.clamp(1, 4) as usize;
+    let n = case.actors.len().clamp(1, 3);
+    struct Data {
+        out: Vec<u32>,
+        sched: Option<Scheduler<u32>>,
+        extra: Option<Arc<FreeShared>>,
+        home: std::thread::ThreadId,
+    }
+    let home = std::thread::current().id();
+    let mut el: EventLoop<'static, Data> = EventLoop::try_new().expect("event loop");
+    let (exec, sched) = executor::<u32>().expect("executor");
+    let from_cb = case.schedule_from_cb;
+    let tok = el
+        .handle()
+        .insert_source(exec, move |val: u32, _: &mut (), d: &mut Data| {
+            d.out.push(val);
+            if from_cb && d.extra.is_none() {
+                // schedule one more (immediately ready) future from inside the executor's callback
+                let sh = Arc::new(FreeShared { waker: Mutex::new(None), complete: AtomicBool::new(true), finished: AtomicBool::new(false), polls: Mutex::new(vec![]), drops: AtomicU32::new(0), wrong_thread: AtomicBool::new(false) });
+                d.extra = Some(sh.clone());
+                if let Some(s) = &d.sched {
+                    let _ = s.schedule(FreeFut { sh, val: 9999, home: d.home, immediate: true, _not_send: std::rc::Rc::new(()) });
+                }
+            }
+        })
+        .expect("insert executor");
+    let tasks: Vec<Arc<FreeShared>> = (0..n_tasks)
+        .map(|_| Arc::new(FreeShared { waker: Mutex::new(None), complete: AtomicBool::new(false), finished: AtomicBool::new(false), polls: Mutex::new(vec![]), drops: AtomicU32::new(0), wrong_thread: AtomicBool::new(false) }))
+        .collect();
+    for (i, t) in tasks.iter().enumerate() {
+        sched.schedule(FreeFut { sh: t.clone(), val: 100 + i as u32, home, immediate: false, _not_send: std::rc::Rc::new(()) }).expect("schedule");
+    }
+    let mut data = Data { out: vec![], sched: Some(sched.clone()), extra: None, home };
+    // first poll of every task: wakers are published
+    el.dispatch(Some(Duration::ZERO), &mut data).expect("dispatch");
+    let go = Arc::new(AtomicUsize::new(0));
+    let done = Arc::new(AtomicUsize::new(0));
+    // (task, wake began, task was already told to complete)
+    let wakes: Arc<Mutex<Vec<(usize, Instant)>>> = Arc::new(Mutex::new(Vec::new()));
+    std::thread::scope(|sc| {
+        for prog in case.actors.iter().take(n) {
+            let go = go.clone();
+            let done = done.clone();
+            let wakes = wakes.clone();
+            let tasks = tasks.clone();
+            let prog = prog.clone();
+            sc.spawn(move || {
+                go.fetch_add(1, Ordering::SeqCst);
+                while go.load(Ordering::SeqCst) < n + 1 {
+                    std::hint::spin_loop();
+                }
+                for op in prog {
+                    let (t, by_clone, complete) = match op {
+                        WOp::Wake(t) => (t, false, false),
+                        WOp::WakeClone(t) => (t, true, false),
+                        WOp::Complete(t) => (t, false, true),
+                        _ => continue,
+                    };
+                    let ti = t as usize % tasks.len();
+                    if complete {
+                        tasks[ti].complete.store(true, Ordering::SeqCst);
+                    }
+                    let w = tasks[ti].waker.lock().unwrap().clone();
+                    if let Some(w) = w {
+                        let b = Instant::now();
+                        if by_clone {
+                            w.clone().wake();
+                        } else {
+                            w.wake_by_ref();
+                        }
+                        wakes.lock().unwrap().push((ti, b));
+                    }
+                }
+                done.fetch_add(1, Ordering::SeqCst);
+            });
+        }
+        while go.load(Ordering::SeqCst) < n {
+            std::hint::spin_loop();
+        }
+        go.fetch_add(1, Ordering::SeqCst);
+        let t0 = Instant::now();
+        while done.load(Ordering::SeqCst) < n && t0.elapsed() < Duration::from_secs(20) {
+            el.dispatch(Some(Duration::ZERO), &mut data).expect("dispatch");
+        }
+    });
+    // every waker thread has finished: whatever was woken has a pending wake-up
+    for _ in 0..4 {
+        el.dispatch(Some(Duration::ZERO), &mut data).expect("dispatch");
+    }
+    let wakes = wakes.lock().unwrap().clone();
+    info.nontrivial = n >= 2 && !wakes.is_empty();
+    info.classes.push("free_running");
+    info.counters.push(("free_wakes", wakes.len() as u64));
+    let mut viol = None;
+    for (i, t) in tasks.iter().enumerate() {
+        let polls = t.polls.lock().unwrap().clone();
+        let told = t.complete.load(Ordering::SeqCst);
+        let delivered = data.out.iter().filter(|v| **v == 100 + i as u32).count();
+        if t.wrong_thread.load(Ordering::SeqCst) {
+            viol = Some(Violation::new("C10.thread", format!("free-running: task {i} was polled or dropped off the loop thread")));
+            break;
+        }
+        if told {
+            // Complete(t) stored the flag and then woke: the task must have finished and delivered its value once
+            if wakes.iter().any(|(ti, _)| *ti == i) && delivered != 1 {
+                viol = Some(Violation::new(
+                    if delivered == 0 { "C10.wake" } else { "C10.result" },
+                    format!("free-running: task {i} was completed and woken, polled {} times, its value was delivered {delivered} times after every waker thread finished and 4 more dispatches", polls.len()),
+                ));
+                break;
+            }
+        } else {
+            if delivered != 0 {
+                viol = Some(Violation::new("C10.result", format!("free-running: task {i} never completed but its value was delivered {delivered} times")));
+                break;
+            }
+            if let Some((_, b)) = wakes.iter().find(|(ti, b)| *ti == i && !polls.iter().any(|p| p >= b)) {
+                let _ = b;
+                viol = Some(Violation::new("C10.wake", format!("free-running: a wake of pending task {i} was never followed by a poll that started after it began ({} polls, {} wakes in the case)", polls.len(), wakes.len())));
+                break;
+            }
+        }
+    }
+    if viol.is_none() && from_cb && !data.out.is_empty() && !data.out.contains(&9999) {
+        viol = Some(Violation::new("C10.first_poll", "free-running: a future scheduled from the executor's callback never produced its value".to_string()));
+    }
+    // executor gone: every future dropped exactly once, schedule() refuses
+    data.sched = None;
+    el.handle().remove(tok);
+    if viol.is_none() {
+        for (i, t) in tasks.iter().enumerate() {
+            let d = t.drops.load(Ordering::SeqCst);
+            if d != 1 {
+                viol = Some(Violation::new("C10.drop", format!("free-running: future {i} dropped {d} times by the time the executor was removed and dropped (no wake in flight: all waker threads joined)")));
+                break;
+            }
+        }
+        if viol.is_none() && sched.schedule(async { 1u32 }).is_ok() {
+            viol = Some(Violation::new("C10.drop", "free-running: schedule() succeeded after the executor was dropped".to_string()));
+        }
+    }
+    (info, viol)
+}
+
 pub fn check(ctx: &CheckCtx) -> Option<Found> {
     STEER_F7.store(false, Ordering::SeqCst);
     if let Some(f) = ctx.run_replays::<Case, _>("sched", run_case) {
@@ -706,8 +914,14 @@ pub fn check(ctx: &CheckCtx) -> Option<Found> {
     if let Some(f) = ctx.run_replays::<BatchCase, _>("batch", run_batch) {
         return Some(f);
     }
+    if let Some(f) = ctx.run_replays::<FreeCase, _>("free", run_free) {
+        return Some(f);
+    }
     let t = ctx.tier;
     if let Some(f) = ctx.search("sched", case_strategy(), t.pick(8000, 150_000), 6, None, run_case) {
+        return Some(f);
+    }
+    if let Some(f) = ctx.search("free", free_strategy(), t.pick(3_000, 100_000), 4, None, run_free) {
         return Some(f);
     }
     for n in [0u32, 1, 2, 1023, 1024, 1025, 2047, 2048, 2100, 3100] {
@@ -737,6 +951,10 @@ pub fn replay(_ctx: &CheckCtx, sub: &str, case: serde_json::Value) -> Result<Opt
     if sub == "batch" {
         let c: BatchCase = serde_json::from_value(case).map_err(|e| e.to_string())?;
         return Ok(run_batch(&c).1);
+    }
+    if sub == "free" {
+        let c: FreeCase = serde_json::from_value(case).map_err(|e| e.to_string())?;
+        return Ok(run_free(&c).1);
     }
     let c: Case = serde_json::from_value(case).map_err(|e| e.to_string())?;
     Ok(run_case(&c).1)
